@@ -15,7 +15,8 @@ from props._msgl import replay_with
 
 RULE = ("random server-side scripts: 1-4 requests, 0-3 duplicates each at offsets {1, EAD-1, EAD+1, random, "
         "EL-1, EL+1, >EL}, handler kinds fast/slow/never/No-Response/error, peers reusing mids, own traffic "
-        "with colliding mids. Non-trivial: at least one duplicate arrived within the lifetime.")
+        "with colliding mids; plus scripts in which the application hands out one response object for all its "
+        "requests (the model keeps values, the implementation references). Non-trivial: at least one duplicate arrived within the lifetime.")
 TRUSTED = ["virtual-clock event loop and fake-socket UDP stack of the harness (vloop.py, netsim.py)"]
 ASSUMPTIONS = ["asyncio timer order as on the virtual clock; a duplicate arriving exactly at the expiry tick is not judged"]
 
@@ -24,6 +25,7 @@ def scripts(env):
     cfg = msglayer.default_cfg()
     out = [c["script"] for _, c in load_corpus("C04") if "script" in c]
     out += [G.c04_random(env.rng, cfg) for _ in range(env.scale(250, 6000))]
+    out += [G.c04_alias(env.rng, cfg) for _ in range(env.scale(40, 600))]
     return out
 
 
